@@ -161,7 +161,7 @@ func rejectClass(kind string, err error) string {
 func Run(t *testing.T, r *vk.Rec, opt Options) {
 	n := r.N(opt.Quick, opt.Thorough)
 	gen := rapid.Custom(func(t *rapid.T) *xsugar.Program {
-		return opt.Program(&xsugar.G{T: t})
+		return opt.Program(&xsugar.G{T: t, Flags: map[string]bool{}})
 	})
 	var progs []*xsugar.Program
 	for i := 0; i < n; i++ {
